@@ -547,6 +547,29 @@ pub fn history(backend: Backend, seed: u64, idx: u64) -> Case {
                             let _ = bad.insert(m);
                             log.push(format!("marked #{} {}", m, how));
                         }
+                        (AnyConn::Sqlite(c), _) => {
+                            // drive the connection into a state in which every statement fails (SQLITE_INTERRUPT):
+                            // a running statement is leaked, then the connection is interrupted - the flag stays
+                            // set for as long as a statement is active, i.e. for the rest of its life
+                            if !bad.contains(&m) {
+                                let r = guarded(c.interact(|conn| -> Result<bool, deadpool_sqlite::rusqlite::Error> {
+                                    let mut stmt = conn.prepare("WITH RECURSIVE c(x) AS (SELECT 1 UNION ALL SELECT x + 1 FROM c) SELECT x FROM c")?;
+                                    let mut rows = stmt.query([])?;
+                                    let _ = rows.next()?;
+                                    std::mem::forget(rows);
+                                    std::mem::forget(stmt);
+                                    conn.get_interrupt_handle().interrupt();
+                                    // broken for good?
+                                    Ok(conn.query_row("SELECT 1", [], |r| r.get::<_, i64>(0)).is_err())
+                                }))
+                                .await;
+                                if matches!(r, Ok(Ok(Ok(true)))) {
+                                    let _ = bad.insert(m);
+                                    log.push(format!("#{} fails every statement from now on (interrupted with a statement still running)", m));
+                                    *counters.entry("sqlite_connections_broken".into()).or_insert(0) += 1;
+                                }
+                            }
+                        }
                         (AnyConn::Diesel(c), _) => {
                             if !bad.contains(&m) {
                                 let r = guarded(c.interact(|c| {
